@@ -9,12 +9,17 @@ import (
 	"math"
 	"strconv"
 	"strings"
+	"time"
 
 	"github.com/robertkrimen/otto"
 	"github.com/robertkrimen/otto/parser"
+	"ottoh/fulljs"
 	. "ottoh/lib"
 	"ottoh/minijs"
 )
+
+const watchdog = 3 * time.Second
+const maxLog = 4000
 
 type obs struct {
 	log     []string // Coq val terms
@@ -77,7 +82,11 @@ func errTerm(err error) string {
 
 func newVM(o *obs) *otto.Otto {
 	vm := otto.New()
+	vm.SetStackDepthLimit(400)
 	_ = vm.Set("log", func(call otto.FunctionCall) otto.Value {
+		if len(o.log) > maxLog {
+			panic(WatchdogHalt)
+		}
 		o.log = append(o.log, valTerm(call.Argument(0)))
 		return otto.UndefinedValue()
 	})
@@ -92,6 +101,10 @@ func newVM(o *obs) *otto.Otto {
 }
 
 func finish(o *obs, out Outcome, inFunc bool) {
+	if out.Timeout {
+		o.kind, o.note = 3, "watchdog: the program did not terminate"
+		return
+	}
 	if out.Panic != nil {
 		o.kind, o.note = 3, fmt.Sprintf("Go panic escaped: %v", out.Panic)
 		return
@@ -126,6 +139,150 @@ func (o *obs) coq() string {
 	return Clist(o.log) + " " + oc
 }
 
+// ---- MiniJS+ (coq/C01/Full.v) ----
+func fvalTerm(v otto.Value) string {
+	switch {
+	case v.IsUndefined():
+		return "WUndef"
+	case v.IsNull():
+		return "WNull"
+	case v.IsBoolean():
+		b, _ := v.ToBoolean()
+		return "(WBool " + Cbool(b) + ")"
+	case v.IsNumber():
+		f, _ := v.ToFloat()
+		if math.IsNaN(f) {
+			return "WNaN"
+		}
+		if f == math.Trunc(f) && math.Abs(f) < 9007199254740992 {
+			return "(WNum " + Cz(int64(f)) + ")"
+		}
+		return "WBig"
+	case v.IsString():
+		return "(WStr " + Cstr(v.String()) + ")"
+	case v.IsObject():
+		if v.Class() == "Error" {
+			if n, err := v.Object().Get("name"); err == nil {
+				switch n.String() {
+				case "TypeError":
+					return "(WErr 1)"
+				case "ReferenceError":
+					return "(WErr 2)"
+				}
+			}
+			return "(WErr 0)"
+		}
+		return "(WRef 0)"
+	}
+	return "(WErr 0)"
+}
+
+func ferrTerm(err error) string {
+	if oe, ok := err.(*otto.Error); ok {
+		m := oe.Error()
+		switch {
+		case strings.HasPrefix(m, "TypeError"):
+			return "(WErr 1)"
+		case strings.HasPrefix(m, "ReferenceError"):
+			return "(WErr 2)"
+		}
+		return "(WErr 0)"
+	}
+	s := err.Error()
+	switch s {
+	case "undefined":
+		return "WUndef"
+	case "null":
+		return "WNull"
+	case "true":
+		return "(WBool true)"
+	case "false":
+		return "(WBool false)"
+	case "NaN":
+		return "WNaN"
+	}
+	if n, e := strconv.ParseInt(s, 10, 64); e == nil {
+		return "(WNum " + Cz(n) + ")"
+	}
+	return "(WErr 0)"
+}
+
+type fobs struct {
+	log  []string
+	out  string
+	note string
+}
+
+func (o *fobs) String() string {
+	return "log=[" + strings.Join(o.log, ",") + "] outcome=" + o.out + " " + o.note
+}
+
+func runFullRoutes(src string) ([]*fobs, string) {
+	res := make([]*fobs, 5)
+	var shared *otto.Script
+	for route := 0; route < 5; route++ {
+		o := &fobs{}
+		vm := otto.New()
+		vm.SetStackDepthLimit(400) // a runaway recursion must not overflow the Go stack of the harness
+		_ = vm.Set("log", func(call otto.FunctionCall) otto.Value {
+			if len(o.log) > maxLog {
+				panic(WatchdogHalt)
+			}
+			o.log = append(o.log, fvalTerm(call.Argument(0)))
+			return otto.UndefinedValue()
+		})
+		var out Outcome
+		switch route {
+		case 0:
+			out = Watch(vm, watchdog, func() (otto.Value, error) { return vm.Run(src) })
+		case 1:
+			out = Watch(vm, watchdog, func() (otto.Value, error) {
+				s, err := vm.Compile("", src)
+				if err != nil {
+					return otto.Value{}, err
+				}
+				shared = s
+				return vm.Run(s)
+			})
+		case 2:
+			out = Watch(vm, watchdog, func() (otto.Value, error) {
+				p, err := parser.ParseFile(nil, "", src, 0)
+				if err != nil {
+					return otto.Value{}, err
+				}
+				return vm.Run(p)
+			})
+		case 3:
+			out = Watch(vm, watchdog, func() (otto.Value, error) { return vm.Eval(src) })
+		case 4:
+			out = Watch(vm, watchdog, func() (otto.Value, error) {
+				if shared == nil {
+					return otto.Value{}, fmt.Errorf("no script")
+				}
+				return vm.Run(shared)
+			})
+		}
+		switch {
+		case out.Timeout:
+			o.out, o.note = "FOutOfFuel", "watchdog: the program did not terminate"
+		case out.Panic != nil:
+			o.out, o.note = "FDeclined", fmt.Sprintf("Go panic escaped: %v", out.Panic)
+		case out.Err != nil:
+			o.out = "(FThrew " + ferrTerm(out.Err) + ")"
+		default:
+			o.out = "FNormal"
+		}
+		res[route] = o
+	}
+	diff := ""
+	for route := 1; route < 5; route++ {
+		if res[route].String() != res[0].String() {
+			diff += fmt.Sprintf(" route%d{%s}", route, res[route].String())
+		}
+	}
+	return res, diff
+}
+
 // the five submission routes of the property
 func runRoutes(src string, inFunc bool) ([]*obs, string) {
 	res := make([]*obs, 5)
@@ -136,9 +293,9 @@ func runRoutes(src string, inFunc bool) ([]*obs, string) {
 		var out Outcome
 		switch route {
 		case 0:
-			out = RunJS(vm, src)
+			out = Watch(vm, watchdog, func() (otto.Value, error) { return vm.Run(src) })
 		case 1:
-			out = Guard(func() (otto.Value, error) {
+			out = Watch(vm, watchdog, func() (otto.Value, error) {
 				s, err := vm.Compile("", src)
 				if err != nil {
 					return otto.Value{}, err
@@ -147,7 +304,7 @@ func runRoutes(src string, inFunc bool) ([]*obs, string) {
 				return vm.Run(s)
 			})
 		case 2:
-			out = Guard(func() (otto.Value, error) {
+			out = Watch(vm, watchdog, func() (otto.Value, error) {
 				p, err := parser.ParseFile(nil, "", src, 0)
 				if err != nil {
 					return otto.Value{}, err
@@ -155,9 +312,9 @@ func runRoutes(src string, inFunc bool) ([]*obs, string) {
 				return vm.Run(p)
 			})
 		case 3:
-			out = Guard(func() (otto.Value, error) { return vm.Eval(src) })
+			out = Watch(vm, watchdog, func() (otto.Value, error) { return vm.Eval(src) })
 		case 4:
-			out = Guard(func() (otto.Value, error) {
+			out = Watch(vm, watchdog, func() (otto.Value, error) {
 				if shared == nil {
 					return otto.Value{}, fmt.Errorf("no script")
 				}
@@ -179,13 +336,31 @@ func runRoutes(src string, inFunc bool) ([]*obs, string) {
 func main() {
 	env := FromFlags("c01")
 	env.Import = "Otto.C01.Corr"
-	env.Rule = "MiniJS programs from a weighted grammar (blocks, if, counter-bounded while, labelled statements, break/continue with and without labels, return, throw, try/catch/finally; expressions with assignment, ++, && || ?:, host call log) in function mode and global mode, each submitted by all five routes; non-trivial = distinct program containing at least one jump (break/continue/return/throw) inside a labelled statement, loop or try"
+	env.Rule = "(a) MiniJS+ programs (coq/C01/Full.v: hoisted var/function declarations, closures, this, arguments, call/apply/bind, constructors with prototype methods, instanceof/typeof/in/delete, while/do-while/for/for-in, switch with fall-through, labelled jumps, try/catch binding/finally) compared with the ES5 reference semantics; (b) MiniJS programs from a weighted grammar (blocks, if, counter-bounded while, labelled statements, break/continue with and without labels, return, throw, try/catch/finally; expressions with assignment, ++, && || ?:, host call log) in function mode and global mode, each submitted by all five routes; non-trivial = distinct program containing at least one jump (break/continue/return/throw) inside a labelled statement, loop or try"
 	// pinned witnesses of the listed findings come first
 	pinned := []minijs.Program{
 		{InFunc: false, Body: []minijs.Stmt{minijs.SLabelled{L: 1, S: minijs.SIf{E: minijs.Lit{Kind: 2}, A: minijs.SBreak{L: 1}}}, minijs.SExpr{E: minijs.Log{E: minijs.Lit{Kind: 1, N: 5}}}}},
 		{InFunc: true, Body: []minijs.Stmt{minijs.SLabelled{L: 1, S: minijs.SIf{E: minijs.Lit{Kind: 2}, A: minijs.SBreak{L: 1}}}, minijs.SReturn{E: minijs.Lit{Kind: 1, N: 7}}}},
 	}
 	for i := 0; env.Count() < env.N; i++ {
+		if i >= len(pinned) && i%2 == 1 {
+			// a MiniJS+ program (functions, closures, this, arguments, call/apply/bind, constructors, all loops, switch, for-in)
+			budget := 10 + env.Rng.Intn(30)
+			if env.Tier == "thorough" {
+				budget = 10 + env.Rng.Intn(80)
+			}
+			fp := fulljs.Generate(env.Rng, budget)
+			res, diff := runFullRoutes(fp.JS)
+			txt := fmt.Sprintf("%s => %s", fp.JS, res[0].String())
+			if diff != "" {
+				txt += " ROUTES DISAGREE:" + diff
+			}
+			for k, v := range fp.Stats {
+				env.Dist["full:"+k] += v
+			}
+			env.Add(fmt.Sprintf("FCase %s %s %s %s", fp.Coq, Clist(res[0].log), res[0].out, Cbool(diff == "")), txt, "miniJS+", true)
+			continue
+		}
 		var p minijs.Program
 		if i < len(pinned) {
 			p = pinned[i]
